@@ -17,6 +17,7 @@ from odata_query import ast, exceptions
 from odata_query.typing import infer_type, typecheck
 
 from ..common import Run
+from ..gen import pick as gen_pick
 from ..harness import Item, run_items
 
 PID = "C18"
@@ -87,7 +88,7 @@ def producers(t: str) -> List[tuple]:
 def gen_typed(t: str, depth: int, picks: list, sval: str) -> Any:
     """build an expression of type t; every inner choice consumes one pick (symbolic int)."""
     prods = producers(t) if depth > 0 else producers(t)[:2]
-    p = prods[picks.pop(0) % len(prods)] if picks else prods[0]
+    p = gen_pick(prods, picks.pop(0) % len(prods)) if picks else prods[0]
     if p[0] == "lit":
         return lit(t, sval)
     if p[0] == "field":
@@ -183,9 +184,9 @@ def check_callsite(bi: int, fn: int, kind: int, pat: int, second_bad: bool) -> b
     """the backends' use of the type check for contains / startswith / endswith: a first argument that is a literal of a
     non-string kind - or a second argument that is - is refused with ArgumentTypeException, whatever the other argument
     looks like (wildcards included); a well-typed call is accepted."""
-    name = ("contains", "startswith", "endswith")[fn]
-    first = lit(BAD_FIRST[kind % len(BAD_FIRST)]) if not second_bad else ast.Identifier("name")
-    second = ast.String(PATTERNS[pat]) if not second_bad else lit(BAD_FIRST[kind % len(BAD_FIRST)])
+    name = gen_pick(("contains", "startswith", "endswith"), fn)
+    first = lit(gen_pick(BAD_FIRST, kind % len(BAD_FIRST))) if not second_bad else ast.Identifier("name")
+    second = ast.String(gen_pick(PATTERNS, pat)) if not second_bad else lit(gen_pick(BAD_FIRST, kind % len(BAD_FIRST)))
     node = ast.Call(ast.Identifier(name), [first, second])
     try:
         SITE["vis"][bi]().visit(node)
@@ -197,8 +198,8 @@ def check_callsite(bi: int, fn: int, kind: int, pat: int, second_bad: bool) -> b
 
 
 def check_callsite_ok(bi: int, fn: int, pat: int) -> bool:
-    name = ("contains", "startswith", "endswith")[fn]
-    node = ast.Call(ast.Identifier(name), [ast.Identifier("name"), ast.String(PATTERNS[pat])])
+    name = gen_pick(("contains", "startswith", "endswith"), fn)
+    node = ast.Call(ast.Identifier(name), [ast.Identifier("name"), ast.String(gen_pick(PATTERNS, pat))])
     try:
         SITE["vis"][bi]().visit(node)
     except exceptions.ArgumentTypeException:
@@ -236,8 +237,8 @@ def check_typecheck(ti: int, ei: int, as_tuple: bool, p0: int, p1: int, p2: int,
 def check_substr_family(fi: int, p0: int, p1: int, sval: str, bad: int) -> bool:
     """the way the backends use typecheck for contains/startswith/endswith: (field|String, String)."""
     first = gen_typed(S, 2, [p0, p1], sval)
-    second = lit(S, sval) if bad == 0 else lit(TYPES[bad % len(TYPES)], sval)
-    ok_second = bad == 0 or TYPES[bad % len(TYPES)] == S
+    second = lit(S, sval) if bad == 0 else lit(gen_pick(TYPES, bad % len(TYPES)), sval)
+    ok_second = bad == 0 or gen_pick(TYPES, bad % len(TYPES)) == S
     try:
         typecheck(first, (ast.Identifier, ast.String), "field")
         typecheck(second, ast.String, "substring")
